@@ -643,6 +643,56 @@ Proof.
   rewrite H in Hs. inversion Hs; subst. apply Hh.
 Qed.
 
+(* C14 M1 for the queue, both directions: within the length bound (no byte count reaches 2^64)
+   init / add report failure exactly when the allocator refused a request *)
+Theorem eq_fail_iff ssz qsz rl op st o x st' o' ev :
+  qst_inv rl st -> eq_op_ok rl op -> (q_used st + 1) * rl < W ->
+  eq_step 2 4 2 ssz qsz op st o = Ok (x, st', o', ev) ->
+  op <> QDelete ->
+  (refused ev = true <-> x = YRc false).
+Proof.
+  intros Hi Hok HW H Hnd.
+  destruct (eq_step_ok ssz qsz rl op st o Hi Hok HW) as (x1 & st1 & o1 & ev1 & Hs & _ & Hspec & Hfail & _).
+  rewrite H in Hs. inversion Hs; subst. split.
+  - intros Hrf. destruct (Hfail Hrf Hnd). assumption.
+  - intros Hx. destruct (refused ev1); [reflexivity|]. exfalso.
+    destruct op, st as [q|]; cbn [qst_abs option_map eq_abs eq_spec_step] in Hspec;
+      inversion Hspec; subst; discriminate.
+Qed.
+
+(* C14 M3 for whole queue programs *)
+Definition qtr_final (st : option equeue) (tr : list (eq_out * option equeue * list aev)) : option equeue :=
+  last (map qtr_st tr) st.
+
+Theorem eq_run_no_leak ssz qsz rl ops : forall st o tr rest,
+  qst_inv rl st -> Forall (eq_op_ok rl) ops ->
+  (q_used st + N.of_nat (length ops)) * rl < W ->
+  eq_run 2 4 2 ssz qsz ops st o = Ok tr ->
+  exists h, heap_run (qst_owned ssz qsz st ++ rest) (concat (map qtr_ev tr)) = Some h /\
+            Permutation h (qst_owned ssz qsz (qtr_final st tr) ++ rest).
+Proof.
+  induction ops as [|op ops IH]; intros st o tr rest Hi Hok HW Hr.
+  - cbn in Hr. inversion Hr; subst. cbn. perm_refl.
+  - inversion Hok as [|? ? Hop Hops]; subst. cbn [length] in HW.
+    assert (HW1 : (q_used st + 1) * rl < W) by nia.
+    destruct (eq_step_ok ssz qsz rl op st o Hi Hop HW1) as (x & st1 & o1 & ev & Hs & Hi1 & _ & _ & Hu & Hh).
+    assert (HW2 : (q_used st1 + N.of_nat (length ops)) * rl < W) by nia.
+    cbn [eq_run] in Hr. rewrite Hs in Hr. cbn [bind] in Hr.
+    destruct (eq_run 2 4 2 ssz qsz ops st1 o1) as [tr1| | |] eqn:E; cbn [bind] in Hr; try discriminate.
+    inversion Hr; subst tr. clear Hr.
+    destruct (Hh rest) as (h1 & Hh1 & Hp1).
+    cbn [map concat qtr_ev snd]. rewrite heap_run_app, Hh1.
+    destruct (IH st1 o1 tr1 rest Hi1 Hops HW2 E) as (h2 & Hh2 & Hp2).
+    destruct (heap_run_perm _ _ _ _ (Permutation_sym Hp1) Hh2) as (h3 & Hh3 & Hp3).
+    exists h3. split; [exact Hh3|].
+    eapply Permutation_trans; [apply Permutation_sym; exact Hp3|].
+    eapply Permutation_trans; [exact Hp2|].
+    unfold qtr_final. cbn [map qtr_st fst snd].
+    replace (last (st1 :: map qtr_st tr1) st) with (last (map qtr_st tr1) st1).
+    2:{ symmetry. apply last_cons_cons. }
+    apply Permutation_refl.
+Qed.
+
 (* everything a client can read through elasticqueue_get is the record list *)
 Lemma eq_view_from_spec q : eq_inv q -> forall n pos,
   (N.to_nat pos + n = N.to_nat (eq_len q))%nat ->
